@@ -2,8 +2,9 @@ from propcommon import *  # noqa
 
 CFG = dict(
         level="proof",
-        lean_modules=["ElysModel.Props.C03"],
-        props_files=["ElysModel/Props/C03.lean"],
+        lean_modules=["ElysModel.Props.C03", "ElysModel.Props.C03Src"],
+        pre_cmds=[GO2LEAN],
+        props_files=["ElysModel/Props/C03.lean", "ElysModel/Props/C03Src.lean"],
         runs=[dict(mode="c03", n_quick=2500, n_thorough=72000, shards_quick=8, shards_thorough=14),
               dict(hist_run(nq=150, nt=400, sq=6, st=10, focus="amm."), driver="C03H"),
               dict(scn_run("c03"), driver="C03H")],
@@ -14,9 +15,9 @@ CFG = dict(
              "boundary lattice (dust, amount = reserve, reserve+-1, Quo ties, reserves around 10^18, zero/huge values); an evaluation "
              "is one call; non-trivial = the call succeeded; distinct = distinct (function, arguments, result) tuples; plus history mode on the real app (driver C03H: amm-focused "
              "histories and the scenario c03-bonus-from-treasury; an evaluation is one block)",
-        trusted_base=COMMON_TB + ["oracle / accounted-pool keepers replaced by table-driven stubs (not consulted for prices by non-oracle pools)",
+        trusted_base=COMMON_TB + [SRC_TB, "oracle / accounted-pool keepers replaced by table-driven stubs (not consulted for prices by non-oracle pools)",
                                   "reference value of the weighted-product formula for unequal weights: math/big.Float at 420 bits in the harness"],
-        assumptions=["the oracle branches of SwapOutAmtGivenIn/SwapInAmtGivenOut are ported, checked differentially, and PROVED to pay out no more value than is paid in at the oracle prices "
+        assumptions=[SRC_ASSUME, "the oracle branches of SwapOutAmtGivenIn/SwapInAmtGivenOut are ported, checked differentially, and PROVED to pay out no more value than is paid in at the oracle prices "
                      "(theorems oracle_value / oracle_in_value, for every weight-breaking fee in [0,1] the port applied - a ghost output compared with the implementation's); the bonus is judged on real blocks (driver C03H): over a block's end-block transfers an oracle pool's own account never pays out more value than it takes in at the prices in force, so any bonus comes from the rebalance treasury",
                      "equal-weight statements are proved about the Lean port; unequal-weight statements are conditional on PowSpec (|Pow(y,w) - y^w| <= 1e-8 on 0<y<=1), which is TESTED against the 420-bit reference (clause C03.pow_spec), not proved",
                      "weighted allowance is 1e-8 of the RESERVE (what PowSpec yields), fees in [0,2%], exact-in trades up to 1000 x the in-reserve"],
